@@ -4,6 +4,7 @@
   → `from_tuple`.  Tie: correspondence against `arr._array.tobytes()` and indexing (tools/props/c02.py).
 -/
 import NiVerif.Gen.TimeDelta
+import NiVerif.Gen.DateTime
 import NiVerif.Model.Record
 
 namespace Model.BtElem
@@ -21,6 +22,45 @@ def arrLoad (bytes : List Int) : Except PyErr Int :=
   | some (l, m) =>
     let tv := Gen.TimeValueTuple.from_cvi l m
     from_tuple tv.1 tv.2
+
+/-! ### Interpreting the element chains of `Gen/BtElemSites` (tier T29)
+
+  A store site applies a chain of argument-less methods to one element; a value on its way is an element (its tick count),
+  a TimeValueTuple or the pair handed to NumPy.  Each method is the *generated* function of the element's class. -/
+
+inductive V where
+  | elem (ticks : Int)
+  | tv (whole frac : Int)
+  | cvi (lsb msb : Int)
+  deriving Repr, DecidableEq
+
+/-- the element class of an array class -/
+def isDateTime (cls : String) : Bool := cls == "DateTimeArray"
+
+def storeStep (cls : String) (v : V) (method : String) : Option V :=
+  match method, v with
+  | "to_tuple", .elem t =>
+    let p := if isDateTime cls then Gen.DateTime.to_tuple t else Gen.TimeDelta.to_tuple t
+    some (.tv p.1 p.2)
+  | "to_cvi", .tv w f => let c := Gen.TimeValueTuple.to_cvi w f; some (.cvi c.1 c.2)
+  | _, _ => none
+
+/-- the bytes a store site writes for the element `t` (none: the chain does not end in the pair NumPy expects) -/
+def runStore (cls : String) (chain : List String) (t : Int) : Option (List Int) :=
+  match chain.foldlM (storeStep cls) (V.elem t) with
+  | some (.cvi l m) => some (Model.Record.encodeCvi l m)
+  | _ => none
+
+/-- a decoding site: `.item()` reads the record as (lsb, msb), then the chain's functions -/
+def runLoad (cls : String) (chain : List String) (bytes : List Int) : Option (Except PyErr Int) :=
+  match chain with
+  | ["item", "from_cvi", "from_tuple"] =>
+    some (match Model.Record.decodeCvi bytes with
+      | none => .error .ValueError
+      | some (l, m) =>
+        let tv := Gen.TimeValueTuple.from_cvi l m
+        if isDateTime cls then Gen.DateTime.from_tuple tv.1 tv.2 else Gen.TimeDelta.from_tuple tv.1 tv.2)
+  | _ => none
 
 def dispatch : List String → Option String
   | ["elem", "store", a] => a.toInt?.map (fun t => Py.render (arrStore t))
